@@ -393,3 +393,59 @@ func vfC15_WriteToFail() {
 	}
 	vfReach("end")
 }
+
+// vfC15_DeadlineSeq: a call that is already parked is woken by a deadline that is set after the
+// deadline had been cleared or re-armed (the parked call holds the channel it obtained when it
+// started waiting; every later Set*Deadline must still reach it).  There is no peer activity, so a
+// call that is not woken leaves every goroutine blocked, which the executor reports.
+//   cases: side (0 read, 1 write, 2 WriteTo), first (0: clear, then past; 1: future, then past;
+//          2: future, clear, then past), preempt
+func vfC15_DeadlineSeq() {
+	side := vfCase("side")
+	first := vfCase("first")
+	a, b := NewPipe()
+	vfClock(1000, 0)
+	past := time.Unix(1, 0)
+	future := time.Unix(4000000000, 0)
+	var n1 int
+	var e1 error
+	vfSchedule(vfCase("preempt"))
+	set := func(t time.Time) {
+		if side == 1 {
+			a.SetWriteDeadline(t)
+		} else {
+			b.SetReadDeadline(t)
+		}
+	}
+	vfGo("c", func() {
+		switch side {
+		case 0:
+			n1, e1 = b.Read(make([]byte, 4))
+		case 1:
+			n1, e1 = a.Write([]byte{1, 2})
+		default:
+			var n int64
+			n, e1 = b.WriteTo(&vfSinkW{})
+			n1 = int(n)
+		}
+	})
+	vfGo("s", func() {
+		switch first {
+		case 0:
+			set(time.Time{})
+		case 1:
+			set(future)
+		default:
+			set(future)
+			set(time.Time{})
+		}
+		set(past)
+	})
+	vfJoin()
+	vfAssert(n1 == 0 && vfIsTimeout(e1), "a deadline unblocks a pending call with a timeout error")
+	vfReach("end")
+}
+
+type vfSinkW struct{ n int }
+
+func (s *vfSinkW) Write(p []byte) (int, error) { s.n += len(p); return len(p), nil }
